@@ -8,6 +8,11 @@ ALL = [f'C{i:02d}' for i in range(1, 21)]
 
 # id -> (level text, level note, technique, design ref)
 CHECKS = {
+    'C14': (
+        'Bounded-exhaustive totality exploration: every accepted term up to the node bound (quick 4, thorough 5) of a grammar covering every expression node kind, the complete function x argument-shape x context matrix (27 x 27 x 16) and the property skeleton universe are fed to every public rewriting function; the result kind is checked and an exception is accepted only when a reference model predicts it (undefined constant for simplify, unsatisfiable input for split_and, coinciding incompatible references for replacements on predicates).',
+        'Reference evaluator / substitution / definite-type analysis decide which exceptions are allowed. Variables used as values are not message aliases and are outside the replacements\' domain.',
+        'bounded exhaustive input enumeration over all rewriting entry points with a model-derived allowed-exception table',
+    ),
     'C02': (
         'Feature-deviation-bounded exhaustive exploration: every scope kind x pattern kind x every combination of up to 3-4 (quick) / 4-5 (thorough) features among disjunction widths, alias placements and reference placements (top level, quantifier body, quantifier domain) in all four event positions; each property is constructed by the parser, by the public constructors and by but() copies (at once, event by event, and stepwise through intermediate properties), and the accept / sanity-error outcome is compared with an independent scoping function; plus quantifier-hygiene and duplicate-channel sub-universes.',
         'The scoping function in hplmc/checks/c02.py implements the statement literally (parallel binding inside a disjunction; partially bound aliases count as bound).',
